@@ -489,3 +489,102 @@ func ruleSpanFields(c *Ctx, r *R) {
 }
 
 var spanFieldsReviewed = map[string]string{}
+
+func init() {
+	register(&Rule{ID: "COMPACT-index", Props: []string{"C11", "C02"}, Min: 1,
+		Doc: "G (contradiction rule): a loop that filters elements into a slice and afterwards truncates the slice to the number of elements it accepted (`s[0:n]`, n incremented only on the accepting path) must write each accepted element at position n - the running count - not at the position of the loop variable: with a skipped element the accepted ones land beyond the truncation point and the kept prefix contains zero values. JSON.stringify's replacer array did this: `JSON.stringify({a:1,b:2}, [\"a\",\"a\",\"b\"])` lost b",
+		Run: ruleCompactIndex})
+}
+
+func ruleCompactIndex(c *Ctx, r *R) {
+	n := 0
+	for _, fn := range c.AllSrcFuncs("", "parser", "file", "ast", "token", "registry") {
+		ord := 0
+		for _, b := range fn.Blocks {
+			for _, ins := range b.Instrs {
+				sl, ok := ins.(*ssa.Slice)
+				if !ok || sl.High == nil {
+					continue
+				}
+				if sl.Low != nil {
+					if k, ok := constInt(sl.Low); !ok || k != 0 {
+						continue
+					}
+				}
+				if _, ok := sl.X.Type().Underlying().(*types.Slice); !ok {
+					continue
+				}
+				// the bound is a loop counter: a phi with an edge phi+1
+				cnt, ok := sl.High.(*ssa.Phi)
+				if !ok {
+					if cv, isConv := sl.High.(*ssa.Convert); isConv {
+						cnt, ok = cv.X.(*ssa.Phi)
+					}
+				}
+				if !ok {
+					continue
+				}
+				counters := map[ssa.Value]bool{}
+				var collect func(p *ssa.Phi, d int)
+				collect = func(p *ssa.Phi, d int) {
+					if d > 4 || counters[p] {
+						return
+					}
+					counters[p] = true
+					for _, e := range p.Edges {
+						switch x := e.(type) {
+						case *ssa.Phi:
+							collect(x, d+1)
+						case *ssa.BinOp:
+							if x.Op == token.ADD {
+								if p2, ok := x.X.(*ssa.Phi); ok {
+									collect(p2, d+1)
+								}
+							}
+						}
+					}
+				}
+				collect(cnt, 0)
+				incremented := false
+				for p := range counters {
+					for _, e := range p.(*ssa.Phi).Edges {
+						if bo, ok := e.(*ssa.BinOp); ok && bo.Op == token.ADD && counters[bo.X] {
+							if k, ok := constInt(bo.Y); ok && k == 1 {
+								incremented = true
+							}
+						}
+					}
+				}
+				if !incremented {
+					continue
+				}
+				// stores into elements of the same slice value
+				for _, b2 := range fn.Blocks {
+					for _, i2 := range b2.Instrs {
+						st, ok := i2.(*ssa.Store)
+						if !ok {
+							continue
+						}
+						ia, ok := st.Addr.(*ssa.IndexAddr)
+						if !ok || !sameSSA(ia.X, sl.X, 0) {
+							continue
+						}
+						idx := ia.Index
+						if cv, ok := idx.(*ssa.Convert); ok {
+							idx = cv.X
+						}
+						n++
+						ord++
+						key := fmt.Sprintf("%s:compaction#%d", ssaFuncName(fn), ord)
+						atCount := counters[idx]
+						r.check(atCount, key, c.Pos(instrPos(st)), "accepted elements are written at the running count",
+							fmt.Sprintf("%s writes the accepted element at the loop position %s but keeps only the first %s elements (truncation at %s): once an element is skipped the accepted ones lie beyond the cut and the kept prefix holds zero values", ssaFuncName(fn), idx.Name(), cnt.Name(), c.Pos(instrPos(sl))))
+					}
+				}
+			}
+		}
+	}
+	if n == 0 {
+		r.undecided("unresolved:sites", "-", "UNRESOLVED: no filter-and-truncate loop found (JSON.stringify's replacer array is one)")
+	}
+}
